@@ -46,6 +46,12 @@ def prepare(res, need_driver=True, asan=False, drivers=("ovnimodel",)):
     try:
         changed = gen.generate(p.bdir)
         res.cov["generated_changed"] = [k for k, v in changed.items() if v]
+        if gen.HANDLERS_FALLBACK:
+            res.cov["handler_facts"] = ("NOT regenerated (constructs the extractor does not understand: %s); the committed "
+                                        "Generated/Handlers.lean is used and the handler facts are tied by the differential "
+                                        "correspondence only" % "; ".join(gen.HANDLERS_FALLBACK[:4]))
+        else:
+            res.cov["handler_facts"] = "regenerated from the clang AST of /repo's event.c / setup.c"
         # the translator's own consistency matters to the checks whose model consumes the generated
         # tables / handler facts; the consistency of the code under test (listed vs recognised events)
         # is C18's subject only.  Runtime-side properties do not depend on either.
